@@ -494,7 +494,10 @@ class Request(request.Request):
                 #   effectively what we are doing since we only ever
                 #   access this field when setting self._cached_access_route
                 client, __ = self.scope['client']
-            except KeyError:
+            except (KeyError, TypeError):
+                # NOTE: The 'client' field is optional and may also be
+                #   present but set to None (e.g., when the server listens
+                #   on a UNIX domain socket).
                 # NOTE(kgriffs): Default to localhost so that app logic does
                 #   note have to special-case the handling of a missing
                 #   client field in the connection scope. This should be
